@@ -7,6 +7,35 @@ import re
 
 HERE = os.path.dirname(os.path.dirname(os.path.abspath(__file__)))
 REMARKS = {
+ 'C06_l1': 'first run: MISSED (the string hash function was chosen per history, never switched while an object was alive); a quarter of the churn histories now switch json_global_set_string_hash mid-history',
+ 'C06_l2': 'first run: MISSED (delete-current-while-iterating only through the foreach macro); OITDEL has a visitor form: the callback deletes the member it is looking at and returns SKIP',
+ 'C19_l1': 'first run: MISSED (formatted output never contained a NUL); fmtc: sprintbuf("%s%c%s", a, 0, b) with short and long parts',
+ 'C19_l2': 'first run: MISSED (buffers up to 400 KB); huge-buffer phase: 8-12 MiB then single requests of 1.2x-2.5x the capacity',
+ 'C09_l2': 'first run: MISSED (constant-key names were immortal in the driver); after the SOURCE of a copy is destroyed the driver overwrites the name storage it lent to it (KSCR) before the copy is read',
+ 'C18_l1': 'first run: MISSED (concurrent release only through json_object_put on the node itself); container mode: all holders but one keep their reference inside an array/object of their own and release the container',
+ 'C20_l1': 'caught by C08 (fd workload with 8-byte records, added after C20_j1); C20 alone cannot see it (no allocation faults there)',
+ 'C20_l2': 'first run: MISSED (serialization never failed in C20); a custom serializer of a random node reports failure: to_fd/to_file[_ext] must return -1 and write nothing',
+ 'C10_l2': 'first run: MISSED (no text-retaining doubles in C10, no sets to an equal-comparing value); 30% of doubles are new_double_s nodes, first mutation may be the other zero / a 1-ulp neighbour',
+ 'C07_l1': 'caught by C08 after adding "replace the LAST element of an array trimmed to exactly its length" (directly and through json_pointer_set); C07 has no faults',
+ 'C07_l2': 'caught by C05 after the generator started storing a node the caller holds a reference to back into its own slot / under its own name / at its own pointer (4.8k + 20k + 2.4k times per run)',
+ 'C13_l1': 'first run: MISSED (nothing was changed after the patch was applied); every scalar of the result is now changed through the setters (SCRAMBLE) and the patch / copy_from document dumped again',
+ 'C13_l2': 'first run: harness edit in progress (exit 2); caught on re-run by the move semantics oracle',
+ 'C08_l1': 'see C07_l1',
+ 'C14_l2': 'first run: MISSED (incremental parses always passed explicit lengths); half of the LPC runs hand the last piece over NUL-terminated with len = -1',
+ 'C02_l1': 'first run: MISSED (mutations were applied to the tree as built); 12% of the C02 trees are deep-copied first (source destroyed), then mutated and serialized',
+ 'C02_l2': 'outside C02 as stated (needs a second thread); caught by C18: the disjoint scenario now lets every third thread give ITSELF a double format and checks that nobody else sees it (also a TSan race on the new global)',
+ 'C05_l2': 'first run: MISSED (userdata was always a non-zero id); 8% of the set_userdata operations register the callback with a NULL userdata pointer',
+ 'C12_l1': 'caught by C05 (pointer_set of a node at its own location), see C07_l2',
+ 'C17_l1': 'first run: MISSED (invalid return codes were small numbers); invalid codes that coincide with a valid code in their low 16 bits, after negation or with high bits set',
+ 'C17_l2': 'first run: MISSED (callbacks never re-entered the visitor); a fifth of the schedules run a nested json_c_visit on another tree (ending in an error or normally) inside callbacks',
+ 'C15_l1': 'first run: MISSED (leaves at the limit were strict JSON); boundary documents with leaves only the default mode knows (Infinity, NaN, nUll, single quotes, leading zero)',
+ 'C15_l2': 'first run: MISSED (only well-formed documents at the limit); malformed text right at / beyond the limit (missing value, stray separator/closer) under ASan',
+ 'C04_l1': 'first run: harness edit in progress (exit 2); caught on re-run',
+ 'C16_l1': 'first run: MISSED (line comments always ended in a newline); a // comment that runs to the end of the text after the complete value',
+ 'C03_l1': 'first run: MISSED, and not visible to the split-vs-prefix comparison at all (both sides end at the same byte); absolute expectation added: a call that ends inside a comment following a complete container/string root must ask for more input',
+ 'C03_l2': 'first run: harness edit in progress (exit 2); caught on re-run',
+ 'C01_l1': 'first run: MISSED (strict mode meant flags == STRICT exactly); three quarters of the C01 documents now switch on the orthogonal flags (ALLOW_TRAILING_CHARS, VALIDATE_UTF8 on valid UTF-8)',
+ 'C01_l2': 'outside C01 (json_object_from_fd on short reads); caught by C20',
  'C13_k1': 'first run: MISSED (pointers were always produced by escaping names, so a raw "~" never occurred); a third of the tildes not followed by 0/1 are now spelled raw (same member per RFC 6901 evaluation), names "a~2", "t~", "~", "~~" added',
  'C13_k2': 'first run: MISSED (errno was 0 on entry); C12 and C13 shards now also run with a stale errno (ENOMEM/ERANGE/EINVAL/EINTR) on entry to every call',
  'C07_k1': 'first run: MISSED (arrays up to 16384 slots); four huge-array histories (2^20 .. 2*10^7 slots) with a sparse model and whole-array digests',
